@@ -99,6 +99,8 @@ pub struct Sel {
     /// HIST-COUNTERS: every line of <= n plies from every COUNTERS position, on the real board
     /// (counter values that only play can produce on a board)
     pub hist_counters: Option<u32>,
+    /// COUNTS: many men of one kind per side
+    pub counts: bool,
 }
 
 impl Sel {
@@ -122,6 +124,7 @@ impl Sel {
                 multicheck: Some(3),
                 checkpin: Some(3),
                 castle2: true,
+                counts: true,
                 ..Default::default()
             }
         } else {
@@ -141,6 +144,7 @@ impl Sel {
                 multicheck: Some(1),
                 checkpin: Some(1),
                 castle2: true,
+                counts: true,
                 ..Default::default()
             }
         }
@@ -366,6 +370,11 @@ pub fn run_universes(run: &mut Run, sel: &Sel, disagree_idx: usize, check: PosCh
         run.par_shards(&format!("CHECKPIN (a checker, a pinned own man and a free look-alike; level {})", level), ks.len() * 2 * uni::KZONE_PARTS, |ctx, j| {
             let sh = ks[j / (2 * uni::KZONE_PARTS)] * 2 + (j / uni::KZONE_PARTS) % 2;
             uni::checkpin(sh, j % uni::KZONE_PARTS, neks, &mut |p| visit(ctx, p, disagree_idx, check));
+        });
+    }
+    if sel.counts {
+        run.seq("COUNTS (0..15 men of one kind per side, every pair of kinds, two king placements)", |ctx| {
+            uni::counts(&mut |p| visit(ctx, p, disagree_idx, check));
         });
     }
     if sel.castle2 {
